@@ -1,7 +1,7 @@
 (* Extraction of the executable model and the spec predicates.  ExtrOcamlBasic only:
    bool, option, list, pairs, unit map to OCaml's; numbers (N, Z, positive, nat) stay inductive. *)
 From Coq Require Extraction ExtrOcamlBasic.
-From RSP Require Import Base Consts Ttl Spec_C13 Choose Spec_C09 Crypt Spec_C03 Packet Spec_Packet Rewrite Spec_C01 Proxy Locks Addr Spec_C14 Frame Spec_C16 Log Spec_C18 Cert Route Spec_C08.
+From RSP Require Import Base Consts Ttl Spec_C13 Choose Spec_C09 Crypt Spec_C03 Packet Spec_Packet Rewrite Spec_C01 Proxy Locks Dns Walk Addr Spec_C14 Frame Spec_C16 Log Spec_C18 Cert Route Spec_C08.
 Extraction Language OCaml.
 Extraction "model.ml" BinInt.Z.add BinInt.Z.sub BinInt.Z.ltb BinInt.Z.leb BinInt.Z.eqb Base.be_value Base.be_encode Base.wf_bytes Base.beq_bytes
   Ttl.decttl Ttl.checkttl Ttl.addttlattr Ttl.attrvalidate Ttl.ttl_stage_check Ttl.ttl_stage_add
@@ -10,7 +10,7 @@ Extraction "model.ml" BinInt.Z.add BinInt.Z.sub BinInt.Z.ltb BinInt.Z.leb BinInt
   Log.radattr2ascii Log.replylog_fields_of Log.fticks_realm Log.fticks_csi Log.hashmac Spec_C18.all_printable Spec_C18.all_lower_hex Spec_C18.normal_form
   Frame.reader Frame.radget Spec_C16.frames Spec_C16.is_prefix_of Spec_C16.list_beq
   Addr.find_conf_from Addr.find_conf Addr.addressmatches Spec_C14.spec_find Spec_C14.spec_entry
-  Proxy.radsrv Proxy.replyh Proxy.writer_release Proxy.freerq Proxy.alloc_rq Proxy.get_rq Proxy.get_client Proxy.set_client Proxy.get_server Proxy.set_server Proxy.empty_slot Proxy.set_wr Proxy.set_lost Proxy.set_nextid Proxy.removeclient Proxy.rc_ok Proxy.rc_ok_at Proxy.refs Locks.edge_ok Locks.rank
+  Proxy.radsrv Proxy.replyh Proxy.writer_release Proxy.freerq Proxy.alloc_rq Proxy.get_rq Proxy.get_client Proxy.set_client Proxy.get_server Proxy.set_server Proxy.empty_slot Proxy.set_wr Proxy.set_lost Proxy.set_nextid Proxy.removeclient Proxy.rc_ok Proxy.rc_ok_at Proxy.refs Locks.edge_ok Locks.rank Dns.parsenaptr Dns.parsesrv Walk.walk_idx Walk.attrvalidate_idx Walk.subwalk_idx
   Spec_C01.spec_rewrite_untouched Rewrite.dorewrite Rewrite.dorewritemodattr Rewrite.cstr
   Packet.buf2radmsg Packet.radmsg2buf Packet.gettype Packet.getalltype Spec_Packet.wf_packet Spec_Packet.tiles Spec_Packet.length_field
   Spec_Packet.response_auth_ok Spec_Packet.acct_request_auth_ok Spec_Packet.all_msgauth_ok Spec_Packet.has_msgauth Spec_Packet.first_is_msgauth Spec_Packet.attrs_of
